@@ -28,6 +28,8 @@ From Coq Require Import List Arith Bool.
 Import ListNotations.
 From Trzsz Require Import Model.Proc Model.ProcFault Proofs.Proc Proofs.ProcFault Proofs.ProcInst Gen.Skel_pipeline.
 From Trzsz Require Import Model.ErrTell Proofs.ErrTell Gen.Skel_errtell Gen.Skel_errcallers.
+From Coq Require Import ZArith.
+From Trzsz Require Import Model.CfgTimeout Proofs.CfgTimeout.
 
 Definition terminates_after_cancel (N : net) : Prop :=
   forall D io_ret, io_assumptions io_ret true ->
@@ -208,6 +210,30 @@ Print Assumptions C11_victim_sends_nothing.
 Theorem C11_error_callers : errtell_callers = expected_callers.
 Proof. exact callers_pinned. Qed.
 Print Assumptions C11_error_callers.
+
+(* ---- a timeout of zero or less means wait indefinitely: on both ends, after the handshake ---- *)
+(* The theorems above assume Timeout > 0 for "a wire read returns"; a timeout <= 0 is the user
+   asking to wait indefinitely.  That wish has to survive the handshake: the server's -t travels
+   in the CFG record.  For EVERY integer t, with the shape of sendConfig / recvConfig /
+   newTransfer / getNewTimeout REGENERATED into Gen/Consts.v (the condition under which the
+   member is written, what is written, that both ends unmarshal the record, the default, the
+   condition under which a timer is armed): both ends work with t afterwards, the record carries
+   the member, and a timer is armed iff t > 0. *)
+Theorem C11_timeout_roundtrip : forall t : Z,
+  ct_handshake cfgtimeout_shape t = Some (t, t, (0 <? t)%Z, (0 <? t)%Z, true).
+Proof. exact timeout_roundtrip. Qed.
+Print Assumptions C11_timeout_roundtrip.
+
+(* and a client behind a relay (relay.go unmarshals the record and marshals its own copy) *)
+Theorem C11_timeout_via_relay : forall t : Z, ct_via_relay cfgtimeout_shape t = Some (t, (0 <? t)%Z).
+Proof. exact timeout_via_relay. Qed.
+Print Assumptions C11_timeout_via_relay.
+
+Theorem C11_timeout_honoured : forall t : Z,
+  ct_server cfgtimeout_shape t = Some t /\ ct_client cfgtimeout_shape t = Some t /\
+  ((t <= 0)%Z -> ct_armed cfgtimeout_shape t = Some false) /\ ((0 < t)%Z -> ct_armed cfgtimeout_shape t = Some true).
+Proof. exact timeout_honoured. Qed.
+Print Assumptions C11_timeout_honoured.
 
 (* ---- the hypotheses are satisfiable and the bound is concrete ---- *)
 Example C11_io_assumptions_sat : io_assumptions (fun k => match k with Unknown => false | _ => true end) true.
